@@ -45,6 +45,21 @@ Section C07.
     arena_wf a -> base_ok O a -> i < length a -> noT a i ->
     ok_result O osem a (flatten O a i) (fun r => val O osem a i r).
   Proof. exact (flatten_sem O osem LAWS). Qed.
+
+  (* ... also when the tree already holds transformed oracles (a remapped oracle remapped
+     again, lazy remaps / applies above and inside the coordinate trees):
+     TransformedOracleClause::remap composes the coordinate trees with the coordinate maps.
+     [good a i]: below every apply node reachable from i the transformed oracles have
+     variable-independent components (the C++ does not substitute applied variables inside
+     coordinate trees); implied by [noT a i], vacuous when no apply node is reachable *)
+  Theorem C07_flatten_sem_oracles : forall (a : arena num) i,
+    arena_wf a -> base_ok O a -> i < length a -> good O osem a i ->
+    ok_result O osem a (flatten O a i) (fun r => val O osem a i r).
+  Proof. exact (flatten_sem_o O osem LAWS). Qed.
+
+  Theorem C07_good_of_noT : forall (a : arena num) i,
+    arena_wf a -> i < length a -> noT a i -> good O osem a i.
+  Proof. exact (good_noT O osem). Qed.
 End C07.
 
 (* the reals satisfy the laws, for every interpretation of the opcodes the
@@ -76,6 +91,28 @@ Theorem C07_eq_sound : forall uf bf,
     forall r, val (R_ops uf bf) osem a i r = val (R_ops uf bf) osem a j r.
 Proof. exact eq_sound. Qed.
 
+(* Tree::optimized with transformed oracles anywhere: the underlying tree and the three
+   coordinate trees of every TransformedOracleClause are flattened and optimised against
+   the shared canonical map, to any nesting depth; the value is preserved whether or not
+   the model's level fuel ran out *)
+Theorem C07_optimized_sem_oracles : forall uf bf,
+  (forall x, bf OP_POW x 1%R = x) -> (forall x, bf OP_NTH_ROOT x 1%R = x) ->
+  forall osem (a : arena R) i,
+    arena_wf a -> base_ok (R_ops uf bf) a -> i < length a -> good (R_ops uf bf) osem a i ->
+    let '(a', j) := optimized (R_ops uf bf) a i in
+    extends a a' /\ arena_wf a' /\ base_ok (R_ops uf bf) a' /\ j < length a' /\
+    forall r, val (R_ops uf bf) osem a' j r = val (R_ops uf bf) osem a i r.
+Proof. exact optimized_sem_o. Qed.
+
+Theorem C07_eq_sound_oracles : forall uf bf,
+  (forall x, bf OP_POW x 1%R = x) -> (forall x, bf OP_NTH_ROOT x 1%R = x) ->
+  forall osem (a : arena R) i j,
+    arena_wf a -> base_ok (R_ops uf bf) a -> i < length a -> j < length a ->
+    good (R_ops uf bf) osem a i -> good (R_ops uf bf) osem a j ->
+    snd (tree_eq (R_ops uf bf) a i j) = true ->
+    forall r, val (R_ops uf bf) osem a i r = val (R_ops uf bf) osem a j r.
+Proof. exact eq_sound_o. Qed.
+
 Print Assumptions C07_unary_sem.
 Print Assumptions C07_binary_sem.
 Print Assumptions C07_remap_sem.
@@ -84,3 +121,7 @@ Print Assumptions C07_flatten_sem.
 Print Assumptions C07_reals_instance.
 Print Assumptions C07_optimized_sem.
 Print Assumptions C07_eq_sound.
+Print Assumptions C07_flatten_sem_oracles.
+Print Assumptions C07_good_of_noT.
+Print Assumptions C07_optimized_sem_oracles.
+Print Assumptions C07_eq_sound_oracles.
